@@ -4,10 +4,10 @@ Require Import Base Groups.
 Definition gp (g : gst) : str := concat (map fst (groups g)).
 Definition gh (g : gst) : list nat := concat (map snd (groups g)).
 
-Lemma route_in_reg_at g m path hs : route_in g m path hs = reg_at (gp g) (gh g) m path hs.
+Lemma route_in_reg_at g m path hs hdr : route_in g m path hs hdr = reg_at (gp g) (gh g) m path hs hdr.
 Proof. reflexivity. Qed.
 
-Lemma get_in_get_at g path hs : get_in g path hs = get_at (autohead g) (gp g) (gh g) path hs.
+Lemma get_in_get_at g path hs hdr : get_in g path hs hdr = get_at (autohead g) (gp g) (gh g) path hs hdr.
 Proof. reflexivity. Qed.
 
 Lemma combo_in_at g path common : forall uses added,
@@ -53,19 +53,19 @@ Proof. induction l as [|x l IH]; intros []; cbn; [subst; lia | specialize (IH H)
 
 Section StmtInd.
 Variable P : stmt -> Prop.
-Hypothesis Hroute : forall m p hs, P (SRoute m p hs).
-Hypothesis Hget : forall p hs, P (SGet p hs).
-Hypothesis Hroutes : forall p ms ex hs, P (SRoutes p ms ex hs).
-Hypothesis Hany : forall p hs, P (SAny p hs).
+Hypothesis Hroute : forall m p hs hdr, P (SRoute m p hs hdr).
+Hypothesis Hget : forall p hs hdr, P (SGet p hs hdr).
+Hypothesis Hroutes : forall p ms ex hs hdr, P (SRoutes p ms ex hs hdr).
+Hypothesis Hany : forall p hs hdr, P (SAny p hs hdr).
 Hypothesis Hgroup : forall p hs body, Forall P body -> P (SGroup p hs body).
 Hypothesis Hcombo : forall p c u, P (SCombo p c u).
 Hypothesis Hah : forall b, P (SAutoHead b).
 Fixpoint stmt_ind2 (s : stmt) : P s :=
   match s with
-  | SRoute m p hs => Hroute m p hs
-  | SGet p hs => Hget p hs
-  | SRoutes p ms ex hs => Hroutes p ms ex hs
-  | SAny p hs => Hany p hs
+  | SRoute m p hs hdr => Hroute m p hs hdr
+  | SGet p hs hdr => Hget p hs hdr
+  | SRoutes p ms ex hs hdr => Hroutes p ms ex hs hdr
+  | SAny p hs hdr => Hany p hs hdr
   | SGroup p hs body =>
       Hgroup p hs body ((fix f (l : list stmt) : Forall P l :=
                            match l with [] => Forall_nil _ | x :: l' => Forall_cons x (stmt_ind2 x) (f l') end) body)
@@ -77,7 +77,7 @@ End StmtInd.
 Theorem exec_stmt_flat : forall s fuel g, depth s <= fuel ->
   exec_stmt fuel g s = lift g (flatten_stmt (autohead g) (gp g) (gh g) s).
 Proof.
-  induction s as [m p hs|p hs|p ms ex hs|p hs|p hs body IH|p c u|b] using stmt_ind2; intros fuel g Hd;
+  induction s as [m p hs hdr|p hs hdr|p ms ex hs hdr|p hs hdr|p hs body IH|p c u|b] using stmt_ind2; intros fuel g Hd;
     (destruct fuel as [|f]; [cbn in Hd; lia|]); cbn [exec_stmt flatten_stmt lift].
   - destruct g; reflexivity.
   - rewrite get_in_get_at. destruct g; reflexivity.
@@ -120,3 +120,38 @@ Proof.
   intros Hd H. rewrite exec_stmt_flat in H by exact Hd.
   destruct (flatten_stmt _ _ _ s) as [[ah r']|]; cbn in H; [|discriminate]. inversion H; reflexivity.
 Qed.
+
+(* ---- Headers on the returned *Route, and handler validation/wrapping ---- *)
+Lemma mark_last_snoc hdr l r :
+  mark_last hdr (l ++ [r]) = l ++ [mkfreg (fr_method r) (fr_path r) (fr_hs r) hdr].
+Proof.
+  induction l as [|x l IH]; [reflexivity|].
+  destruct l as [|y l']; [reflexivity|].
+  change (mark_last hdr ((x :: y :: l') ++ [r])) with (x :: mark_last hdr ((y :: l') ++ [r])).
+  rewrite IH. reflexivity.
+Qed.
+
+Lemma mark_last_same l : Forall (fun r => fr_hdr r = false) l -> mark_last false l = l.
+Proof.
+  induction 1 as [|x l Hx _ IH]; [reflexivity|].
+  destruct l as [|y l']; [destruct x; cbn in *; subst; reflexivity|].
+  change (mark_last false (x :: y :: l')) with (x :: mark_last false (y :: l')). rewrite IH. reflexivity.
+Qed.
+
+Definition wrap_list (wrap : bool) (hs : list nat) : list nat := if wrap then flat_map (fun h => [0; h]) hs else hs.
+
+Lemma run_trace_reg_at wrap pp ph m path hs hdr :
+  run_trace wrap (reg_at pp ph m path hs hdr) = wrap_list wrap ph ++ wrap_list wrap hs.
+Proof. unfold run_trace, wrap_list, reg_at; cbn. destruct wrap; [apply flat_map_app|reflexivity]. Qed.
+
+Lemma callable_reg_at pp ph m path hs hdr :
+  callable (reg_at pp ph m path hs hdr) = forallb (fun h => negb (Nat.eqb 0 h)) ph && forallb (fun h => negb (Nat.eqb 0 h)) hs.
+Proof.
+  unfold callable, reg_at; cbn. rewrite existsb_app, negb_orb.
+  assert (E : forall l, negb (existsb (Nat.eqb 0) l) = forallb (fun h => negb (Nat.eqb 0 h)) l).
+  { induction l as [|x l IH]; [reflexivity|]. cbn [existsb forallb]. rewrite negb_orb, IH. reflexivity. }
+  rewrite !E. reflexivity.
+Qed.
+
+Lemma checked_exec_flatten p : checked (exec p) = checked (flatten p).
+Proof. rewrite exec_is_flatten. reflexivity. Qed.
